@@ -10,7 +10,7 @@ import gen
 from gen import F, enc_label, dec_label, LabelTable, coq_obs, fs
 
 KINDS = ['bqm_change', 'bqm_change', 'view_read', 'view_write', 'view_write', 'view_same', 'qm_change', 'qm_s2b',
-         'cqm_change', 'cqm_s2b', 'poly', 'ising_qubo', 'bqm_to_from', 'sampleset']
+         'cqm_change', 'cqm_s2b', 'poly', 'ising_qubo', 'bqm_to_from', 'sampleset', 'flip']
 
 
 def gen_case(rng, tier):
@@ -41,8 +41,32 @@ def gen_case(rng, tier):
         c["inplace"] = rng.random() < 0.5
         c["future"] = c["inplace"] and rng.random() < 0.6   # inplace=False on a pending set blocks (it copies)
         # storage dtype of the sample array: unsigned / bool storage cannot hold -1 and must be widened
+        c["bad_target"] = rng.choice([None, None, 'INTEGER', 'REAL'])     # a conversion that must be refused
         c["sdtype"] = rng.choice(['int8', 'uint8', 'uint16', 'uint32', 'bool', 'int32', 'float64', 'int64'] if c["vartype"] == 'BINARY'
                                  else ['int8', 'int16', 'int32', 'float64', 'float32', 'int64'])
+        return c
+    if kind == 'flip':
+        c["sub"] = rng.choice(['qm', 'bqm', 'cqm', 'cqm'])
+        if c["sub"] == 'bqm':
+            c["dtype"] = rng.choice(['f64', 'f32', 'obj'])
+            c["desc"] = gen.rand_desc(rng, nmax=5, nmin=1, kinds=('BINARY', 'SPIN'), single_vartype=True,
+                                      kmax=4 if c["dtype"] == 'f32' else 8, jmax=0 if c["dtype"] == 'f32' else 2)
+        else:
+            c["desc"] = gen.rand_desc(rng, nmax=5, nmin=1)
+        sb = [v[0] for v in c["desc"]["vars"] if v[1] in ('SPIN', 'BINARY')]
+        other = [v[0] for v in c["desc"]["vars"] if v[1] not in ('SPIN', 'BINARY')]
+        c["targets"] = [rng.choice(sb) for _ in range(rng.randint(1, 2))] if sb else []
+        c["bad_target"] = rng.choice(other) if other and rng.random() < 0.3 else None
+        if c["sub"] == 'cqm':
+            base = c["desc"]
+            keep = {str(v[0]) for v in base["vars"] if rng.random() < 0.7}
+            sub = gen.rand_desc(rng, nmax=0)
+            sub["vars"] = [v for v in base["vars"] if str(v[0]) in keep]
+            sub["lin"] = [[v[0], str(rng.dyadic())] for v in sub["vars"]]
+            sub["quad"] = []
+            sub["off"] = str(rng.dyadic())
+            c["con"] = sub
+            c["discrete"] = rng.random() < 0.6
         return c
     if kind.startswith(('bqm', 'view', 'ising')):
         c["dtype"] = rng.choice(['f64', 'f64', 'f32', 'obj'])
@@ -259,7 +283,78 @@ def run_case(c):
         coq = None
         if ok:
             coq = f"(SSConv {other} {cq(F(off))} {sset_before} {coq_sset(new, T)})"
-        return {"coq": coq, "py_fail": py_fail, "features": feats, "nontrivial": len(c["rows"]) > 0 and len(labels) > 0}
+        extra = []
+        if c.get("bad_target"):
+            # a refused conversion: must raise ValueError; the receiver's rows / vartype must be untouched
+            ss2 = dimod.SampleSet.from_samples((stored, labels), energy=en, vartype=c["vartype"], sort_labels=False)
+            b2 = coq_sset(ss2, T)
+            e0 = [F(e) for e in ss2.record.energy]
+            try:
+                ss2.change_vartype(c["bad_target"], energy_offset=off, inplace=True)
+                py_fail = py_fail or f"change_vartype({c['bad_target']}) on a {c['vartype']} sample set did not raise"
+            except ValueError:
+                pass
+            feats["fail_energy_shifted"] = bool(len(e0)) and F(off) != 0 and [F(e) for e in ss2.record.energy] != e0
+            extra.append(f"(SSFail {c['bad_target']} {cq(F(off))} {b2} {coq_sset(ss2, T)})")
+        return {"coq": coq, "extra_coq": extra, "py_fail": py_fail, "features": feats,
+                "nontrivial": len(c["rows"]) > 0 and len(labels) > 0}
+
+    if kind == 'flip':
+        desc = c["desc"]
+        sub = c["sub"]
+        feats["sub"] = sub
+        vtmap = {str(dec_label(v[0])): v[1] for v in desc["vars"]}
+        coqs = []
+        if sub in ('qm', 'bqm'):
+            m = gen.build_qm(desc) if sub == 'qm' else gen.build_bqm(desc, dtype=DT[c["dtype"]])
+            for t in c["targets"]:
+                t = dec_label(t)
+                b0 = gen.observe(m)
+                m.flip_variable(t)
+                coqs.append(("Flip", vtmap[str(t)], cnat(T.idx(t)), coq_obs(b0, T), coq_obs(gen.observe(m), T)))
+            if c.get("bad_target") is not None and sub == 'qm':
+                try:
+                    m.flip_variable(dec_label(c["bad_target"]))
+                    py_fail = "flip_variable of an INTEGER/REAL variable did not raise"
+                except ValueError:
+                    pass
+            n = cnat(len(T) + 1)
+            terms = [f"({k} {n} {vt} {v} {b} {a})" for k, vt, v, b, a in coqs]
+        else:
+            cqm = dimod.ConstrainedQuadraticModel()
+            for l, vt, lb, ub in desc["vars"]:
+                if vt in ('INTEGER', 'REAL'):
+                    cqm.add_variable(vt, dec_label(l), lower_bound=lb, upper_bound=ub)
+                else:
+                    cqm.add_variable(vt, dec_label(l))
+            cqm.set_objective(gen.build_qm(desc))
+            labs = [cqm.add_constraint_from_model(gen.build_qm(c["con"]), '<=', rhs=1.0, label='c1')]
+            bins = [dec_label(v[0]) for v in desc["vars"] if v[1] == 'BINARY']
+            if c.get("discrete") and len(bins) >= 2:
+                labs.append(cqm.add_discrete(bins, label="disc"))
+                feats["discrete"] = True
+            cvars = list(cqm.variables)
+            exprs = lambda: [cqm.objective] + [cqm.constraints[l].lhs for l in labs]
+            terms = []
+            for t in c["targets"]:
+                t = dec_label(t)
+                raw0 = raw_mcqm(cqm, labs)
+                obs0 = [gen.observe(x) for x in exprs()]
+                cqm.flip_variable(t)
+                terms.append(f"(CqmFlip {cnat(cvars.index(t))} {raw0} (Some {raw_mcqm(cqm, labs)}))")
+                coqs += [("Flip", vtmap[str(t)], cnat(T.idx(t)), coq_obs(b, T), coq_obs(gen.observe(x), T)) for b, x in zip(obs0, exprs())]
+            if c.get("bad_target") is not None:
+                raw0 = raw_mcqm(cqm, labs)
+                try:
+                    cqm.flip_variable(dec_label(c["bad_target"]))
+                    py_fail = "CQM.flip_variable of an INTEGER/REAL variable did not raise"
+                except ValueError:
+                    terms.append(f"(CqmFlip {cnat(cvars.index(dec_label(c['bad_target'])))} {raw0} None)")
+            n = cnat(len(T) + 1)
+            terms += [f"({k} {n} {vt} {v} {b} {a})" for k, vt, v, b, a in coqs]
+        if not terms:
+            return {"coq": None, "py_fail": py_fail, "nontrivial": False, "features": feats}
+        return {"coq": terms[-1], "extra_coq": terms[:-1], "py_fail": py_fail, "features": feats, "nontrivial": True}
 
     if kind.startswith(('bqm', 'view', 'ising')):
         desc = c["desc"]
